@@ -150,6 +150,10 @@ func makeMessageFieldCoder(fd protoreflect.FieldDescriptor, ft reflect.Type) poi
 				return appendMessage(b, m, f.wiretag, opts)
 			},
 			unmarshal: func(b []byte, p pointer, wtyp protowire.Type, f *coderFieldInfo, opts unmarshalOptions) (unmarshalOutput, error) {
+				if wtyp != protowire.BytesType {
+					// Do not populate the field for a record that is kept as unknown.
+					return unmarshalOutput{}, errUnknown
+				}
 				mp := p.AsValueOf(ft).Elem()
 				if mp.IsNil() {
 					mp.Set(reflect.New(ft.Elem()))
@@ -319,6 +323,10 @@ func makeGroupFieldCoder(fd protoreflect.FieldDescriptor, ft reflect.Type) point
 				return appendGroup(b, m, f.wiretag, opts)
 			},
 			unmarshal: func(b []byte, p pointer, wtyp protowire.Type, f *coderFieldInfo, opts unmarshalOptions) (unmarshalOutput, error) {
+				if wtyp != protowire.StartGroupType {
+					// Do not populate the field for a record that is kept as unknown.
+					return unmarshalOutput{}, errUnknown
+				}
 				mp := p.AsValueOf(ft).Elem()
 				if mp.IsNil() {
 					mp.Set(reflect.New(ft.Elem()))
